@@ -229,7 +229,7 @@ def sub_keys(ctx, shard, n):
 def sub_signums(ctx, shard, n):
     ctx.exhaustive("signature numbers", "-20..20", 41)
     ctx.enumerate("signum", check_signum, range(-20, 21))
-    ctx.given("signum", check_signum, st.integers() | st.integers(-40, 40), 300 if ctx.quick else 20000)
+    ctx.given("signum", check_signum, st.integers() | st.integers(-40, 40), 300 if ctx.quick else 5000)
 
 
 NEAR = ["", "H", "h", "c##", "CB", "AB", "Ab ", " Ab", "Ab\n", "cb", "A#", "Fb", "G#", "D#", "E#", "B#", "db", "gb", "fb", "e#",
